@@ -225,3 +225,76 @@ pub fn handle(w: &mut World, id: u64, _label: &str, req: &SentReq) -> Option<(u1
         }
     }
 }
+
+/// The client library, used directly (not through the state machine), builds a request in
+/// which some apps carry an update check and an event at once, and sends it to the mock.
+/// The world lock is never held while library code runs (nonce / GUID generation re-enters
+/// the simulator through the entropy seam).
+pub fn direct_mixed_exchange(
+    world: &Shared,
+    apps: &[omaha_client::common::App],
+    config: &omaha_client::configuration::Config,
+    handler: Option<&StandardCupv2Handler>,
+) {
+    use omaha_client::protocol::request::{Event, EventType, InstallSource, GUID};
+    use omaha_client::request_builder::{RequestBuilder, RequestParams};
+    let (server, params, events, cfg) = {
+        let mut w = lock(world);
+        let server = match &w.server.mock {
+            Some(s) => s.clone(),
+            None => return,
+        };
+        // the mock asserts one update check per configured app: distinct ids only
+        let mut ids = std::collections::BTreeSet::new();
+        if !apps.iter().all(|a| ids.insert(a.id.clone())) || apps.iter().any(|a| !w.server.mock_cfg.contains_key(&a.id)) {
+            return;
+        }
+        let params = RequestParams {
+            source: InstallSource::ScheduledTask,
+            use_configured_proxies: true,
+            disable_updates: w.server.mock_disable_updates,
+            offer_update_if_same_version: false,
+        };
+        let events: Vec<bool> = (0..apps.len()).map(|i| w.draws.draw(&format!("direct/app#{i}/event"), 2) == 1).collect();
+        (server, params, events, w.server.mock_cfg.clone())
+    };
+    if !events.iter().any(|e| *e) {
+        return;
+    }
+    let mut listed = vec![];
+    let built = {
+        let _g = SutGuard::enter();
+        let mut rb = RequestBuilder::new(config, &params);
+        for (a, ev) in apps.iter().zip(events.iter()) {
+            rb = rb.add_update_check(a);
+            if *ev {
+                rb = rb.add_event(a, Event::success(EventType::UpdateDownloadStarted));
+            }
+            listed.push((a.id.clone(), *ev));
+        }
+        rb.session_id(GUID::new()).request_id(GUID::new()).build(handler)
+    };
+    let (req, _meta) = match built {
+        Ok(x) => x,
+        Err(_) => return,
+    };
+    let uri = req.uri().to_string();
+    let body = futures::executor::block_on(hyper::body::to_bytes(req.into_body())).map(|b| b.to_vec()).unwrap_or_default();
+    let result = call_mock(&server, &origin_form(&uri), body);
+    let mut w = lock(world);
+    w.stat("client.direct_mixed_request");
+    match result {
+        Ok((_status, _headers, rbody)) => {
+            let doc: Option<Value> = serde_json::from_slice(&rbody).ok();
+            drop(w);
+            let parses = {
+                let _g = SutGuard::enter();
+                omaha_client::protocol::response::parse_json_response(&rbody).is_ok()
+            };
+            lock(world).rec(Kind::MockDirect { apps: listed, doc, parses, cfg, failure: None });
+        }
+        Err(e) => {
+            w.rec(Kind::MockDirect { apps: listed, doc: None, parses: false, cfg, failure: Some(e) });
+        }
+    }
+}
